@@ -56,6 +56,7 @@ const (
 	fVorgVar          = "C05-vorg-variation-delta-missing"
 	fPanicReverseIdx  = "C05-panic-cursor-after-reverse-lookup"
 	fGenCatRanges     = "C05-general-category-first-last-ranges"
+	fMarkBaseCache    = "C05-mark-base-cache-not-reset"
 )
 
 // unconditional (skew / loader / unspecified) classes
@@ -65,7 +66,6 @@ const (
 	sOpBudget       = "unspecified:operation-budget-exhausted"
 	sAATRanges      = "skew:aat-feature-ranges"
 	sPairClass0     = "skew:pairpos2-second-class-zero"
-	sMarkBaseMulti  = "skew:markbase-after-multiple-subst"
 	lBitmapOnly     = "loader:bitmap-only-extents"
 )
 
@@ -81,7 +81,7 @@ type fontFacts struct {
 	monoBitmaps     bool // EBLC/EBDT or bloc/bdat strikes (not read by the reference's font functions)
 	hasVORG         bool
 	featureVarTable bool
-	multiAndMark    bool // GSUB has a MultipleSubst lookup and GPOS a MarkBasePos lookup
+	markAttach      bool // GPOS has a MarkBasePos or MarkLigPos lookup
 }
 
 var factsCache = map[*fontEntry]*fontFacts{}
@@ -121,22 +121,14 @@ func facts(fe *fontEntry) *fontFacts {
 		f.monoBitmaps = lds[fe.index].HasTable(ot.MustNewTag("EBLC")) || lds[fe.index].HasTable(ot.MustNewTag("bloc"))
 	}
 	f.featureVarTable = len(fe.face.GSUB.FeatureVariations) > 0 || len(fe.face.GPOS.FeatureVariations) > 0
-	multi, markBase := false, false
-	for _, l := range fe.face.GSUB.Lookups {
-		for _, st := range l.Subtables {
-			if _, ok := st.(tables.MultipleSubs); ok {
-				multi = true
-			}
-		}
-	}
 	for _, l := range fe.face.GPOS.Lookups {
 		for _, st := range l.Subtables {
-			if _, ok := st.(tables.MarkBasePos); ok {
-				markBase = true
+			switch st.(type) {
+			case tables.MarkBasePos, tables.MarkLigPos:
+				f.markAttach = true
 			}
 		}
 	}
-	f.multiAndMark = multi && markBase
 	return f
 }
 
@@ -517,14 +509,13 @@ func triage(fe *fontEntry, c *Case, got portResult, want refResult) class {
 			}
 		}
 	}
-	// skew: MarkBasePos when the glyph before the mark is a later component of a MultipleSubst
-	// sequence: the port implements upstream's fix for harfbuzz issue 4124 (2023: such a glyph is
-	// skipped only when the base coverage does not contain it), libharfbuzz 6.0.0 (2022) always
-	// skips it and attaches to the first glyph of the sequence. Estedad-VF.ttf, direction LTR,
-	// U+0639 U+0628 U+0651: the shadda is attached (407,-500) by the reference only.
-	// Precondition: GSUB MultipleSubst and GPOS MarkBasePos present; only the offsets of GDEF
-	// mark glyphs differ.
-	if f.multiAndMark && fe.face.GDEF.GlyphClassDef != nil && sameOn(port, ref, fID|fCluster|fAdvance) {
+	// finding: the base cached by the mark-to-base / mark-to-ligature lookups (lastBase,
+	// lastBaseUntil of the apply context) is not reset between lookups (upstream resets it in
+	// set_lookup_mask): a mark can be attached to the base found by an earlier lookup, or not at
+	// all. Estedad-VF.ttf, direction LTR, U+0639 U+0628 U+0651: the shadda is attached
+	// (407,-500) by the reference only. Precondition: GPOS has MarkBasePos/MarkLigPos lookups;
+	// only the offsets of GDEF mark glyphs differ.
+	if f.markAttach && fe.face.GDEF.GlyphClassDef != nil && sameOn(port, ref, fID|fCluster|fAdvance) && ev.Known(fMarkBaseCache) {
 		onlyMarks := true
 		for i := range port {
 			if port[i].XOff != ref[i].XOff || port[i].YOff != ref[i].YOff {
@@ -534,7 +525,7 @@ func triage(fe *fontEntry, c *Case, got portResult, want refResult) class {
 			}
 		}
 		if onlyMarks {
-			add(sMarkBaseMulti, fOffset)
+			add(fMarkBaseCache, fOffset)
 		}
 	}
 	// finding: VORG vertical origins of a variable font are not varied (VVAR vertical-origin
